@@ -8,10 +8,60 @@ From V Require Import Base.UString Base.Json Model.SchemaTypes Model.PyBase Mode
      Spec.StixValid Spec.SchemaRefine Proofs.SchemaBasics Proofs.SchemaValidMono Proofs.SchemaScope
      Proofs.SchemaTime Proofs.SchemaLeaf Proofs.SchemaObject Proofs.SchemaProved Proofs.SchemaKinds
      Proofs.SchemaConstr Proofs.SchemaRefineFacts Proofs.SchemaKnot
-     Proofs.SchemaCovProved Proofs.SchemaCovKinds Proofs.SchemaCovCons.
+     Proofs.SchemaCovProved Proofs.SchemaCovKinds Proofs.SchemaCovInv Proofs.SchemaCovCons.
 Import ListNotations.
 
 Local Arguments u : simpl never.
+
+(* Proofs/SchemaObject.v:facts_good with the constraint verdict given for the one object at hand *)
+Section Good2.
+  Variable vr : variant.
+  Variable sp : world.
+  Variable pok : ver -> ustring -> bool.
+  Variables c sc : cls.
+  Hypothesis Hnames : unodup (map sname (cslots c)) = true.
+  Hypothesis Hreq : forall s', In s' (cslots sc) -> spec_requires sc s' = true ->
+      exists s, find_slot c (sname s') = Some s /\ always_present s = true.
+  Hypothesis Hfind : find_class (wclasses sp) (cid c) = Some sc.
+
+  Lemma facts_good2 setting :
+    facts vr sp pok c sc setting ->
+    (exists nc, forallb (jconstr pok nc sc (members c setting))
+                        ((match cfamily sc with FExt => [CAtLeastOneDefault] | _ => [] end) ++ ccons sc) = true) ->
+    good sp pok (cid c) (PObject (cid c) setting (defaulted_names c setting) false).
+  Proof.
+    intros (HInv & Hpresent & _ & _) [nc Hnc].
+    exists setting, (defaulted_names c setting). split; auto.
+    assert (Hmem : exists N, forall kv, In kv (members c setting) ->
+               match find (fun s => ustr_eqb (sname s) (fst kv)) (cslots sc) with
+               | Some s => valid_kind sp pok N (skind s) (snd kv) = true
+               | None => False
+               end).
+    { apply forall_exists_bound.
+      - intros n m kv Hle. destruct (find _ (cslots sc)); auto. apply valid_kind_mono; auto.
+      - intros kv Hin. unfold members in Hin. apply in_map_iff in Hin. destruct Hin as [[k x] [<- Hin]].
+        apply filter_In in Hin. destruct Hin as [Hin _]. simpl.
+        destruct HInv as [_ Hent]. destruct (Hent k x Hin) as [_ [s' [Hf [m Hm]]]].
+        unfold find_slot in Hf. rewrite Hf. eauto. }
+    destruct Hmem as [N HN].
+    exists (S (Nat.max N nc)).
+    rewrite encode_PObject. fold (members c setting).
+    change (valid_obj_body sp (valid_kind sp pok (Nat.max N nc)) (jconstr pok (S (Nat.max N nc))) (cid c) (JObj (members c setting)) = true).
+    unfold valid_obj_body. rewrite Hfind.
+    apply andb_true_iff. split; [apply andb_true_iff; split|].
+    - rewrite forallb_forall. intros kv Hin. specialize (HN kv Hin).
+      destruct (find _ (cslots sc)); [|contradiction]. eapply valid_kind_mono; [|exact HN]. lia.
+    - rewrite forallb_forall. intros s' Hs'. destruct (spec_required sc s') eqn:Er; auto. simpl.
+      pose proof (Hpresent s' Hs' Er) as Hpres.
+      destruct (Hreq s' Hs' Er) as [s [Hfs Hap]].
+      destruct (find_slot_spec _ _ _ Hfs) as [Hs Hn].
+      rewrite jlookup_alookup. unfold members, kept. rewrite alookup_map_encode.
+      rewrite (alookup_filter_keys (fun k => false || negb (mem_ustr k (defaulted_names c setting)))).
+      rewrite <- Hn at 1. rewrite (defaulted_not_present c Hnames s Hs Hap). simpl.
+      apply amem_alookup in Hpres. destruct Hpres as [v Hv]. rewrite Hv. auto.
+    - revert Hnc. apply forallb_imp. intros k _. apply jconstr_mono. lia.
+  Qed.
+End Good2.
 
 Section Knot2.
   Variable vr : variant.
@@ -46,8 +96,9 @@ Section Knot2.
     exists sc setting,
       class_refine_failures c sc = [] /\
       o = PObject (cid c) setting (defaulted_names c setting) false /\
-      facts vr sp pok c sc setting /\
-      (forall st, facts vr sp pok c sc st -> good sp pok (cid c) (PObject (cid c) st (defaulted_names c st) false)).
+      facts vr sp pok c sc setting /\ Itime c setting /\
+      (forall st, facts vr sp pok c sc st -> Itime c st ->
+                  good sp pok (cid c) (PObject (cid c) st (defaulted_names c st) false)).
   Proof.
     intros IH Hfc Hwf Hkinds Hcons Hsc H.
     destruct (find_class_In _ _ _ Hfc) as [Hin _].
@@ -67,12 +118,12 @@ Section Knot2.
     { intros s Hs. destruct (Hslots s Hs) as [s' [Hf Hk]]. exists s'. split; auto. split; auto.
       rewrite forallb_forall in Hkinds. eapply kind_sound2; eauto. }
     assert (Hcon : forall fuel setting,
-               Inv sp pok sc setting ->
+               Inv sp pok sc setting -> Itime c setting ->
                constr_all (eval_constr vr pok fuel c setting)
                           ((match cfamily c with FExt => [CAtLeastOneDefault] | _ => [] end) ++ ccons c) = Ok tt ->
                exists n0, forallb (jconstr pok n0 sc (members c setting))
                                   ((match cfamily sc with FExt => [CAtLeastOneDefault] | _ => [] end) ++ ccons sc) = true).
-    { intros fuel setting HInv Hall.
+    { intros fuel setting HInv HT Hall.
       assert (Each : forall k', In k' ((match cfamily sc with FExt => [CAtLeastOneDefault] | _ => [] end) ++ ccons sc) ->
                                 exists n0, jconstr pok n0 sc (members c setting) k' = true).
       { intros k' Hk'.
@@ -81,7 +132,7 @@ Section Knot2.
           - right. apply in_or_app. left. unfold ext_constr. rewrite Hfam. exact Hk'.
           - destruct (Hcc k' Hk'); auto. right. apply in_or_app. auto. }
         destruct Hlib as [-> | Hlib]; [exists 1%nat; reflexivity|].
-        eapply (constr_sound2 vr Hsock sp pok c sc Hfam Hslots setting HInv fuel k'); eauto.
+        eapply (constr_sound2 vr Hsock sp pok c sc Hfam Hslots setting HInv HT fuel k'); eauto.
         - rewrite forallb_forall in Hcons. auto.
         - eapply constr_all_In; eauto. }
       destruct (forall_exists_bound (fun n0 k' => jconstr pok n0 sc (members c setting) k' = true) _
@@ -93,8 +144,15 @@ Section Knot2.
     destruct (construct_generic_facts vr ev w sp pok sok rc rp ro Hpad c sc Hnames Hslots' Hdconst Hreq kwargs Hsc []
                 Hpre (S f) kwargs vrefs o eq_refl H)
       as (setting & -> & F).
-    exists sc, setting. split; [auto|split; [auto|split; [exact F|]]].
-    intros st Fst. eapply (facts_good vr w sp pok sok rc rp ro c sc); eauto.
+    assert (HT : Itime c setting).
+    { assert (Hpt : forall (m : ustring) (x : pval), alookup m (@nil (ustring * pval)) = Some x -> tnice x)
+        by (intros m x Hx; discriminate Hx).
+      destruct (construct_generic_time vr ev w rc rp ro Hpad c Hnames _ _ [] Hpt pok sok (S f) false false kwargs vrefs _
+                                       eq_refl eq_refl H) as (st' & dfl' & hc' & E & HT).
+      injection E as <- _ _. exact HT. }
+    exists sc, setting. split; [auto|split; [auto|split; [exact F|split; [exact HT|]]]].
+    intros st Fst HTst. apply (facts_good2 vr sp pok c sc Hnames Hreq Hfs st Fst).
+    destruct Fst as (HInv & _ & _ & fuel & Hall). eapply Hcon; eauto.
   Qed.
 
   Theorem knot2 : forall fuel n r o,
@@ -116,8 +174,9 @@ Section Knot2.
       assert (Hgen : exists sc setting,
                  class_refine_failures c sc = [] /\
                  a = PObject (cid c) setting (defaulted_names c setting) false /\
-                 facts vr sp pok c sc setting /\
-                 (forall st, facts vr sp pok c sc st -> good sp pok (cid c) (PObject (cid c) st (defaulted_names c st) false))).
+                 facts vr sp pok c sc setting /\ Itime c setting /\
+                 (forall st, facts vr sp pok c sc st -> Itime c st ->
+                             good sp pok (cid c) (PObject (cid c) st (defaulted_names c st) false))).
       { unfold init_proved2 in Pinit. destruct (cinit c) eqn:Ei; simpl in Pinit; try discriminate.
         - eapply generic_ok2; eauto.
         - eapply generic_ok2; [eauto|eauto|eauto|eauto|eauto| |exact Ha]. apply dict_scope_filter. auto.
@@ -126,8 +185,8 @@ Section Knot2.
           apply dict_scope_aset; auto.
         - eapply generic_ok2; eauto.
         - eapply generic_ok2; eauto. }
-      destruct Hgen as (sc & setting & Hcrf & -> & F & Hgood).
-      pose proof (Hgood setting F) as G0.
+      destruct Hgen as (sc & setting & Hcrf & -> & F & HT & Hgood).
+      pose proof (Hgood setting F HT) as G0.
       destruct (cfamily c) eqn:Efam; destruct (cver c) eqn:Ever; try (injection Hb as <-; exact G0).
       destruct (amem _ kwargs0); [injection Hb as <-; exact G0|].
       destruct (existsb _ (cidcontrib c)); [|injection Hb as <-; exact G0].
@@ -158,7 +217,14 @@ Section Knot2.
         - intros k Hk.
           rewrite forallb_forall in Wid. specialize (Wid k Hk). apply negb_true_iff in Wid.
           apply mem_ustr_false in Wid. exact Wid. }
-      pose proof (Hgood _ Fid) as G1.
+      assert (HTid : Itime c (aset (u "id") (PJ (JStr (t ++ u "--" ++ e_uuid5 ev))) setting)).
+      { apply Itime_aset_other; auto. intros s0 Hs0 Hn0.
+        assert (s0 = sid).
+        { pose proof (find_self_nodup (cslots c) s0 (unodup_NoDup _ Hnames) Hs0) as A.
+          pose proof (find_self_nodup (cslots c) sid (unodup_NoDup _ Hnames) Hsid) as B.
+          rewrite Hn0, <- Hnid in A. rewrite A in B. inversion B; auto. }
+        subst s0. rewrite Ekid. reflexivity. }
+      pose proof (Hgood _ Fid HTid) as G1.
       rewrite defaulted_names_aset in G1; auto.
       apply mem_ustr_false. unfold dconst_names. intros Hin'. apply in_map_iff in Hin'. destruct Hin' as [s2 [Hn2 Hf2]].
       apply filter_In in Hf2. destruct Hf2 as [Hs2 Hd2].
